@@ -45,6 +45,7 @@ CONSTANTS Modes,          \* which waiters this run covers: subset of {"read", "
                           \* possible initial contents of the notification channel
           FlushCfgs,      \* set of records [id, qcap, preload, wdl, maxt]
           Need,           \* bytes a read asks for
+          AllChunks,      \* union of the message sizes of all read configurations (constant bound of the quantifier)
           MaxRetry,       \* retries of Flush after the first failed put (10 in the code)
           MaxBacklog,     \* accept: streams the peer may open
           SCap, SPre, CWT, SMaxT,  \* send: capacity of sendCh, foreign entries already in it, tick of
@@ -181,7 +182,7 @@ ReaderStep == R_a1 \/ R_a2 \/ R_b \/ R_bm1 \/ R_bm2 \/ R_b2 \/ R_selTok \/ R_sel
 
 RKeep == UNCHANGED <<rpc, rd, res, bad, lead>> /\ NotR
 ArrBegin(k) ==      \* the event loop enters fillDataToReadBuffer with a k-byte message (nothing shared touched yet)
-  /\ "arr" \in Events /\ dpc = "idle" /\ arr < MaxArr /\ st # "closed" /\ sess = "up" /\ ~peerClosed
+  /\ k \in Chunks /\ "arr" \in Events /\ dpc = "idle" /\ arr < MaxArr /\ st # "closed" /\ sess = "up" /\ ~peerClosed
   /\ dpc' = "pre" /\ dsz' = k /\ arr' = arr + 1
   /\ UNCHANGED <<now, pend, rbuf, tok, cls, st, sess, tmr, tdl, peerClosed, cpc>> /\ RKeep
 ArrAdd ==           \* pendingData.add
@@ -216,7 +217,7 @@ TimerFire ==
 RTick == Tick /\ UNCHANGED <<pend, rbuf, tok, cls, st, sess, tmr, tdl, dpc, dsz, arr, peerClosed, cpc>> /\ RKeep
 
 ReadNext == RStart \/ R_a1 \/ R_a2 \/ R_b \/ R_bm1 \/ R_bm2 \/ R_b2 \/ R_selTok \/ R_selCls \/ R_selTmr \/ R_m1 \/ R_m2 \/ R_c1 \/ R_c2
-            \/ R_c3 \/ (\E k \in Chunks : ArrBegin(k)) \/ ArrAdd \/ ArrNotify \/ HalfClose \/ CloseCAS \/ CloseFin \/ SessNotify
+            \/ R_c3 \/ (\E k \in AllChunks : ArrBegin(k)) \/ ArrAdd \/ ArrNotify \/ HalfClose \/ CloseCAS \/ CloseFin \/ SessNotify
             \/ SessLambda \/ TimerFire \/ RTick
 
 \* the event that should release the reader has happened (and its deliverer has finished)
